@@ -37,6 +37,10 @@ pub const KEYS: [K; 17] = [
 pub struct Case {
     pub history: Vec<String>,
     pub keys: Vec<K>,
+    /// drive the real binary on a pseudo-terminal (`lace debug` with a throw-away history file)
+    /// instead of the editor's key handler through hook H5
+    #[serde(default)]
+    pub tty: bool,
 }
 
 fn to_lace(k: K) -> VerifKey {
@@ -120,7 +124,115 @@ fn run_keys(history: &[String], keys: &[K], probe: bool) -> Option<(String, Stri
     }
 }
 
+/// Bytes a terminal sends for a key (xterm).
+fn key_bytes(k: K) -> Vec<u8> {
+    match k {
+        K::Ch(c) => c.to_string().into_bytes(),
+        K::Bs => vec![0x7f],
+        K::Del => b"\x1b[3~".to_vec(),
+        K::Left => b"\x1b[D".to_vec(),
+        K::Right => b"\x1b[C".to_vec(),
+        K::Up => b"\x1b[A".to_vec(),
+        K::Down => b"\x1b[B".to_vec(),
+        K::CLeft => b"\x1b[1;5D".to_vec(),
+        K::CRight => b"\x1b[1;5C".to_vec(),
+        K::Enter => vec![b'\r'],
+    }
+}
+
+/// The whole interactive path: `lace debug` on a pseudo-terminal with a throw-away history file,
+/// the keys typed as the byte sequences a terminal sends. Every submitted line is appended to
+/// the history file (unless it repeats the previous one), so after the session the file must hold
+/// exactly the history RefEdit ends with. The keys are restricted (by the generator) to characters
+/// that cannot spell a command, so that no submitted line resumes or ends the session; the session
+/// is ended by typing `exit`.
+fn judge_tty(c: &Case) -> Obs {
+    use crate::cli::{self, TempDir};
+    let mut obs = Obs::default();
+    obs.key = hash_of(&("tty", &c.history, &c.keys));
+    obs.label("real-terminal");
+    let harmless = |ch: char| !ch.is_control() && !ch.is_ascii_alphabetic() && ch != '^' && ch != ':' && ch != '-';
+    if c.keys.iter().any(|k| matches!(k, K::Ch(ch) if !harmless(*ch))) || c.history.iter().any(|h| h.chars().any(|ch| !harmless(ch)) || h.contains('\n')) {
+        obs.excluded = Some("keys or history could spell a command");
+        return obs;
+    }
+    let mut all: Vec<K> = c.keys.clone();
+    all.push(K::Enter);
+    all.extend("exit".chars().map(K::Ch));
+    all.push(K::Enter);
+    obs.show = Some(format!("on a pseudo-terminal; history {:?}; keys: {}", c.history.iter().map(|h| if h.len() > 60 { format!("<{} characters>", h.chars().count()) } else { h.clone() }).collect::<Vec<_>>(), show(&all)));
+    // reference
+    let mut model = Edit::new(c.history.clone());
+    model.begin_line();
+    for k in &all {
+        let multibyte = model.current().iter().any(|ch| ch.len_utf8() > 1);
+        if multibyte && matches!(k, K::Bs | K::Del | K::Left | K::Right | K::CLeft | K::CRight) || (model.idx < model.hist.len() && matches!(k, K::Ch(_) | K::Bs | K::Del)) {
+            obs.nontrivial = true;
+        }
+        if model.key(*k).is_some() {
+            model.end_line();
+            model.begin_line();
+        }
+    }
+    let want: Vec<String> = model.hist.clone();
+    if want.last().map(|s| s.as_str()) != Some("exit") {
+        obs.excluded = Some("the reference session does not end with the typed `exit`");
+        return obs;
+    }
+    if c.history.iter().any(|h| h.chars().count() > 60_000) {
+        obs.label("history-entry-longer-than-60000-characters");
+    }
+    let dir = TempDir::new();
+    dir.write("p.asm", b"start add r0 r0 #1\nhalt\n");
+    let cache = dir.path().join("cache");
+    std::fs::create_dir_all(&cache).unwrap();
+    let mut file = String::new();
+    for h in &c.history {
+        file.push_str(h);
+        file.push('\n');
+    }
+    std::fs::write(cache.join("lace-debugger-history"), file).unwrap();
+    let typed: Vec<Vec<u8>> = all.iter().map(|k| key_bytes(*k)).collect();
+    let cache_s = cache.to_string_lossy().to_string();
+    let (run, ntyped) = cli::lace_tty_env(&["debug", "p.asm", "--minimal"], dir.path(), &typed, false, 60, &[("XDG_CACHE_HOME", cache_s.as_str()), ("HOME", cache_s.as_str())]);
+    if run.timed_out {
+        let err = String::from_utf8_lossy(&run.stderr).to_string();
+        let tail: String = err.chars().rev().take(300).collect::<String>().chars().rev().collect();
+        crate::lacebox::log(&format!("C20 real-terminal: watchdog after {ntyped} of {} keys; {}; stderr tail {tail:?}", typed.len(), obs.show.clone().unwrap_or_default()));
+        obs.excluded = Some("watchdog");
+        return obs;
+    }
+    if run.panicked() {
+        let err = String::from_utf8_lossy(&run.stderr).to_string();
+        let sig = match err.find("panicked at ") {
+            Some(i) => {
+                let rest = &err[i + "panicked at ".len()..];
+                let loc_full = rest.lines().next().unwrap_or("").trim_end_matches(':');
+                let loc = loc_full.rsplitn(2, ':').nth(1).unwrap_or(loc_full);
+                format!("C20:{}", super::c01::panic_sig(rest.lines().nth(1).unwrap_or("").trim(), loc))
+            }
+            None => "C20:terminal-session-crashes".to_string(),
+        };
+        let tail: String = err.chars().rev().take(600).collect::<String>().chars().rev().collect();
+        obs.set_fail(sig, format!("the debugger crashed on the terminal after {ntyped} of {} keys: exit {:?} signal {:?}\n...{tail}", typed.len(), run.code, run.signal));
+        return obs;
+    }
+    let got: Vec<String> = std::fs::read_to_string(cache.join("lace-debugger-history")).unwrap_or_default().lines().map(|l| l.to_string()).collect();
+    if got != want {
+        let at = got.iter().zip(&want).position(|(a, b)| a != b).unwrap_or(got.len().min(want.len()));
+        let clipv = |v: Option<&String>| v.map(|s| if s.chars().count() > 120 { format!("<{} characters, first difference at character {:?}>", s.chars().count(), want.get(at).and_then(|w| s.chars().zip(w.chars()).position(|(a, b)| a != b))) } else { format!("{s:?}") }).unwrap_or_else(|| "<nothing>".into());
+        obs.set_fail(
+            "C20:terminal-submitted-lines-differ",
+            format!("after the session the history file has {} lines, the reference editor {}; entry #{at}: got {}, reference {}\n{} of {} keys were typed; exit {:?}", got.len(), want.len(), clipv(got.get(at)), clipv(want.get(at)), ntyped, typed.len(), run.code),
+        );
+    }
+    obs
+}
+
 pub fn judge_case(c: &Case) -> Obs {
+    if c.tty {
+        return judge_tty(c);
+    }
     let mut obs = Obs::default();
     obs.key = hash_of(&(&c.history, &c.keys));
     obs.show = Some(format!("history {:?}; keys: {}", c.history, show(&c.keys)));
@@ -170,7 +282,7 @@ fn enumerate(ctx: &Ctx, rep: &mut Report, max: usize) {
                 c /= 17;
             }
             for h in histories() {
-                let case = Case { history: h, keys: keys.clone() };
+                let case = Case { history: h, keys: keys.clone(), tty: false };
                 judge_one(ctx, rep, &case, &mut |c| {
                     let mut o = judge_case(c);
                     o.label("enumerated");
@@ -208,7 +320,7 @@ fn enumerate_classes(ctx: &Ctx, rep: &mut Report, max: usize) {
                 keys.push(keys2[c % keys2.len()]);
                 c /= keys2.len();
             }
-            let case = Case { history: vec![], keys };
+            let case = Case { history: vec![], keys, tty: false };
             judge_one(ctx, rep, &case, &mut |c| {
                 let mut o = judge_case(c);
                 o.label("enumerated-character-classes");
@@ -232,7 +344,38 @@ fn random_cases() -> impl Strategy<Value = Case> {
         3 => prop::sample::select(vec![K::CLeft, K::CRight, K::Up, K::Down, K::Bs, K::Del]),
     ];
     let hist = prop::collection::vec("[a-z é😀+;]{0,8}", 0..5);
-    (hist, prop::collection::vec(key, 5..60)).prop_map(|(history, keys)| Case { history, keys })
+    (hist, prop::collection::vec(key, 5..60)).prop_map(|(history, keys)| Case { history, keys, tty: false })
+}
+
+/// Sessions for the real terminal: characters that cannot spell a command, all motion keys,
+/// histories of harmless lines, and (1 in 13) one history entry of 65,000 .. 70,000 characters.
+fn tty_cases() -> impl Strategy<Value = Case> {
+    let ch = || prop::sample::select(vec!['7', '0', '+', ' ', ';', '.', 'é', '😀', '日', '\u{a0}', '٣', '\u{3000}', '=', '#']);
+    let key = crate::pick![
+        8 => ch().prop_map(K::Ch),
+        6 => prop::sample::select(vec![K::Bs, K::Del, K::Left, K::Right, K::CLeft, K::CRight, K::Up, K::Down, K::Left, K::CLeft]),
+        2 => Just(K::Enter),
+    ];
+    let short = (prop::collection::vec("[0-9 +;.é😀=#]{1,12}".prop_map(|s| s), 0..4), prop::collection::vec(key, 3..40));
+    // one history entry of 65,000 .. 70,000 characters (two thirds of them within 15 of 65,535, where 16-bit column arithmetic ends), recalled and edited (no word motions: lace's
+    // are quadratic in the line length, which is slow, not wrong)
+    let key_long = crate::pick![
+        4 => ch().prop_map(K::Ch),
+        4 => prop::sample::select(vec![K::Bs, K::Del, K::Left, K::Right, K::Up, K::Down, K::Up]),
+        1 => Just(K::Enter),
+    ];
+    let long = (
+        (crate::pick![1 => 65_000usize..70_000, 2 => 65_520usize..65_540], prop::sample::select(vec!['8', 'é', '+'])).prop_map(|(n, c)| vec![std::iter::repeat(c).take(n).collect::<String>()]),
+        prop::collection::vec(key_long, 2..9).prop_map(|mut keys| {
+            keys.insert(0, K::Up);
+            keys
+        }),
+    );
+    crate::pick![12 => short.boxed(), 1 => long.boxed()].prop_map(|(history, keys)| {
+        // (blank entries are never written by the editor itself)
+        let history = history.into_iter().filter(|h| !h.trim().is_empty()).collect();
+        Case { history, keys, tty: true }
+    })
 }
 
 impl Prop for C20 {
@@ -242,11 +385,11 @@ impl Prop for C20 {
     fn rule(&self) -> &'static str {
         "ALL key sequences of length <= 4 (quick) / <= 5 (thorough) over {a, Z, 7, space, +, ;, é (2 bytes), 😀 (4 bytes), Backspace, Delete, Left, Right, Ctrl+Left, Ctrl+Right, Up, Down, Enter}, from an empty history and from a 3-entry history (ASCII, multi-byte, punctuation), each run twice: followed by Enter, and followed by the probe 'Q' Enter (which makes the cursor position visible in the submitted text); plus ALL sequences of length <= 4 / <= 5 over {U+00A0, U+3000, Arabic-Indic digit, +, a, space, Ctrl+Left, Ctrl+Right, Left, Backspace, Delete}; plus random sequences of 5-59 keys (more characters: non-ASCII white space, digits, letters, marks and format characters, arbitrary code points, control characters; generated histories). \
          Oracle RefEdit (Vec<char> line, cursor in characters, Vim w/b word motions in characters, history list and index): after every key no panic and 0 <= cursor <= characters of the edited line; whenever Enter submits, the submitted text equals the reference editor's, and blank lines are not submitted; multi-line sessions continue through the history push. \
-         Non-trivial: the line holds a multi-byte character while a motion or deletion key is pressed, or a history entry is edited. Distinct = hash(history, keys)."
+         Plus the whole interactive path: `lace debug` on a pseudo-terminal with a throw-away history file (0-3 entries, rarely one of 65,000-70,000 characters), 3-39 keys typed as the byte sequences a terminal sends (characters that cannot spell a command, all motion / deletion / history keys, Enter), ended by typing `exit`: the history file must end up holding exactly the lines RefEdit submits, and the process must not crash. Non-trivial: the line holds a multi-byte character while a motion or deletion key is pressed, or a history entry is edited. Distinct = hash(history, keys)."
     }
     fn assumptions(&self) -> Vec<String> {
         vec![
-            "hook H5 drives Terminal::handle_key directly and mirrors the few lines of read_line around it (clear before, history push after); terminal rendering, raw mode and the history file are not covered".into(),
+            "hook H5 drives Terminal::handle_key directly and mirrors the few lines of read_line around it (clear before, history push after); the real-terminal stream covers raw mode, prompt redrawing and the history file through the submitted lines only (what is drawn is not compared)".into(),
             "RefEdit's Ctrl+Left/Right are Vim's b/w as the doc comments of the word-motion helpers describe (whitespace, alphanumeric and punctuation classes), counted in characters".into(),
         ]
     }
@@ -255,6 +398,9 @@ impl Prop for C20 {
             Tier::Quick => vec!["A"],
             Tier::Thorough => vec!["A", "B"],
         }
+    }
+    fn needs_cli(&self) -> bool {
+        true
     }
     fn run_worker(&self, ctx: &Ctx, rep: &mut Report) {
         enumerate(ctx, rep, ctx.tier.pick(4, 5));
@@ -265,6 +411,11 @@ impl Prop for C20 {
             o.label("random");
             o
         });
+        // the whole interactive path through the real binary on a pseudo-terminal
+        std::env::set_var("VERIF_MAX_SHRINK", "40");
+        let n = ctx.share(ctx.tier.pick(2000, 30_000));
+        drive(ctx, rep, "real-terminal", tty_cases(), n, &mut |c: &Case| judge_case(c));
+        std::env::remove_var("VERIF_MAX_SHRINK");
     }
     fn fuzz_strategy(&self) -> Option<BoxedStrategy<Value>> {
         Some(crate::fuzzmode::jv(random_cases()))
